@@ -50,7 +50,7 @@ extreme units      model RDM x {1e-10, 1e-6, 1e6, 1e12, 1e20}, signal strength i
                    1e-26 .. 1e12, signal and noise jointly in units 1e-20 .. 1e12; labels in units 1e-20 / 1e-26 / 1e12
                    (C18/exact-rdm-units, C18/exact-precision-units, C18/noise-sweep, C18/same-signal-sweep, C18/indicator-sweep).
                    Model RDMs in units <= 1e-14 FAIL on the unchanged tree (absolute pivot threshold 1e-15 in make_signal):
-                   class 'model-rdm-tiny-units', registered behind `if False:  # pending triage`
+                   class 'model-rdm-tiny-units', registered behind `if False:  # pending triage`   [TRIAGED since: every class repaired in /repo, recorded as open finding, or dropped -- DESIGN.md 10.10]
 label types        condition vector as int64 / int32 / uint8 / int16 / str / float / floats differing by 2^-40 / floats of the
                    order 1e-20; indicator of int, str, bool, float32 and nearly equal float labels (exhaustive small sequences)
 orders             designs 'descending' (blocks, highest first, unequal sizes) and 'interleaved' (first appearance descending,
